@@ -105,9 +105,15 @@ def detect(pid, m, props):
     if out.strip():
         print("refusing: /repo has local changes:\n" + out)
         sys.exit(2)
-    rc, out = sh("git apply %s" % os.path.join(d, "patch.diff"), cwd="/repo")
+    pf = os.path.join(d, "patch.diff")
+    rc, out = sh("git apply %s" % pf, cwd="/repo")
+    if rc != 0:  # the hook commits added lines next to some patched lines: retry with less context
+        rc, out = sh("git apply -C1 --recount %s" % pf, cwd="/repo")
+        meta["applied_to_repo_with"] = "git apply -C1 --recount (context drift from later hook commits)"
     if rc != 0:
-        rc, out = sh("git apply -3 %s" % os.path.join(d, "patch.diff"), cwd="/repo")
+        sh("git checkout HEAD -- . && git reset -q", cwd="/repo")
+        rc, out = sh("patch -p1 -F3 --no-backup-if-mismatch < %s" % pf, cwd="/repo")
+        meta["applied_to_repo_with"] = "patch -p1 -F3"
     meta.setdefault("checks", {})
     try:
         if rc != 0:
@@ -127,7 +133,7 @@ def detect(pid, m, props):
             meta["checks"][p] = res
             print(pid, m, p, "DETECTED" if res["detected"] else "missed (exit %d)" % rc, lines[:2])
     finally:
-        sh("git checkout -- .", cwd="/repo")
+        sh("git checkout HEAD -- . && git reset -q && git clean -fdq -e test-out", cwd="/repo")
         sh("rm -f /verif/replays/*", cwd="/verif")
     meta["detected_by"] = sorted(p for p, r in meta["checks"].items() if r.get("detected"))
     json.dump(meta, open(os.path.join(d, "meta.json"), "w"), indent=1)
